@@ -42,6 +42,9 @@ type c38Setting struct {
 	Unit      bool // helper performs a unit/type conversion
 	// conditionals that read this v1 key: derived v2 booleans
 	Conds []c38Cond
+	// all v1 group spellings the metadata/template accept for this setting ("A/B.Key"), in
+	// their documented order; nil when there is only one
+	Aliases []string
 	// further v2 settings whose template line reads the same v1 path (maps only)
 	Also [][2]string
 }
@@ -307,6 +310,9 @@ func c38BuildTable() (*c38Table, error) {
 				Default: f.Default, Example: f.Example, Choices: f.Choices, Vals: f.Validations, Removed: removed}
 			if inTmpl {
 				s.Helper, s.TmplV1 = call.Helper, call.V1
+			}
+			if strings.Contains(f.V1Group, "/") {
+				s.Aliases = strings.Split(f.V1Group, "/")
 			}
 			s.Renamed = v1k != f.Name || (f.V1Group != "" && v1g != g.Name)
 			s.Unit = f.ValueType == "secondstoduration" || f.ValueType == "memorysize"
